@@ -418,7 +418,15 @@ def run(prog: Program, chk: Check):
                      f"`{dv}.type_hash` is evaluated although {hv}.version may be 0: a v1-style definition (no type_hash) raises AttributeError before the payload is drained, and the next read starts inside it")
     # type_size is the local definition's size
     tdefs = [n for n in walk_local(rm.node) if isinstance(n, ast.Assign) and any(path_of(t) == ts for t in n.targets)]
-    V.decide(bool(tdefs) and all(norm(n.value) in (f"{dv}.type_size", f"{dv}.size", f"ctypes.sizeof({dv})") for n in tdefs), fkey(rm, "type_size-source"), where(rm),
+    size_srcs = (f"{dv}.type_size", f"{dv}.size", f"ctypes.sizeof({dv})")
+
+    def from_local_def(v):
+        # either size attribute of the local definition, or a choice between them (`data.size if data.type_size == -1 else data.type_size`)
+        if isinstance(v, ast.IfExp):
+            return from_local_def(v.body) and from_local_def(v.orelse)
+        return norm(v) in size_srcs
+
+    V.decide(bool(tdefs) and all(from_local_def(n.value) for n in tdefs), fkey(rm, "type_size-source"), where(rm),
              "compared size is the local definition's size", "`type_size` is not taken from the local message definition")
 
     # ---- B faithful bytes ------------------------------------------------------------------------------------------
